@@ -9,3 +9,6 @@ package formatting
 //@   pure
 //@ func ToPascalCase
 //@   pure
+
+// Output and diagnostics may not depend on the iteration order of a Go map (C12): decided per `range` over a map.
+//@ map-order C12 package
